@@ -32,7 +32,10 @@ model and its tie theorem holds trivially)
                `int(e)` of a natural is the natural; of a real it is `natFloorUpTo bound e` (Model/Base.lean:
                the floor of a non-negative real that is at most `bound`) where `bound` is an upper bound that
                is *syntactically* evident (`e = p / c` with `p` natural and literal `c >= 1`: `p`;
-               `min(_, p)`: `p`; `max` of two bounded: the larger) and the parameter `B` otherwise;
+               `min(_, p)`: `p`; `max` of two bounded: the larger) and the parameter `B` otherwise.
+               As in the hand model this is Python's `int()` on NON-NEGATIVE reals only (`natFloorUpTo` is 0 on
+               negative ones, Python truncates towards zero): `int(alpha * n)` of a negative `alpha` is
+               compared with 2 and replaced, so nothing is lost there; a negative `beta` is outside the model;
                `y[r, 0]` of the extended interval array -> `Y r`; `x.nr_of_full_intervals()` -> `N`.
   tests        `== != < <= > >=` (between naturals, else in `K`), `and`, `or`, `not`.
   arrays       `np.asarray(v, dtype=float)` / `np.array(v, dtype=float)` (the series itself),
